@@ -28,6 +28,7 @@ Inductive op :=
 | OPushIterTry           (* PushIterTry { iterator, catch_target } *)
 | OBody (brk cont scopes : nat) (* the body statement; its break jumps to brk (after IteratorClose), its continue to
                                    cont, both leaving `scopes` environments (Break / Continue { scopes }) *)
+| OBodyIn (brk cont scopes : nat) (* the body of a for-in: its break is a plain Break (the keys iterator has no return()) *)
 | OPopIterTry            (* PopIterTry *)
 | OPopScope              (* PopScope *)
 | OJump (t : nat)        (* Jump { target } *)
@@ -69,6 +70,14 @@ Definition exec (loop_trys : nat) (o : op) (s : st) : st :=
         | Brk => mk brk i r e fs0 nid loop_trys l' n true
         | Cont => mk cont i r e fs0 nid loop_trys l' n c
         end
+    | OBodyIn brk cont scopes =>
+        let l' := l ++ [top_id fs] in
+        let fs0 := skipn scopes fs in
+        match body e with
+        | Normal => mk (S p) i r e fs nid t l' n c
+        | Brk => mk brk i r e fs0 nid loop_trys l' n c
+        | Cont => mk cont i r e fs0 nid loop_trys l' n c
+        end
     | OPopIterTry => mk (S p) i r e fs nid (pred t) l n c
     | OPopScope => mk (S p) i r e (tl fs) nid t l n c
     | OJump tg => mk tg i r e fs nid t l n c
@@ -100,6 +109,10 @@ Definition cforof (p : nat) : list op :=
   [ONext; OIterDone (12 + p); OValue; OPushScope; ODeclare; OPushIterTry; OBody (12 + p) p 1;
    OPopIterTry; OPopScope; OJump p; OClose; ORethrow].
 
+(* for-in over the keys iterator: the same loop without handler and without closing *)
+Definition cforin (p : nat) : list op :=
+  [ONext; OIterDone (8 + p); OValue; OPushScope; ODeclare; OBodyIn (8 + p) p 1; OPopScope; OJump p].
+
 (* the compilation before the repair: the variable declared in the one scope around the loop *)
 Definition cforof_old (p : nat) : list op :=
   [ONext; OIterDone (10 + p); OValue; ODeclare; OPushIterTry; OBody (10 + p) p 0;
@@ -116,6 +129,10 @@ Fixpoint spec (it : list V) (nid : nat) : list (nat * option V) * nat * bool * n
       | _ => let '(l, n, c, k) := spec r (S nid) in ((nid, Some v) :: l, S n, c, k)
       end
   end.
+
+(* for-in: the same executions and next() calls; nothing is closed *)
+Definition spec_in (it : list V) (nid : nat) : list (nat * option V) * nat * bool * nat :=
+  let '(l, n, _, k) := spec it nid in (l, n, false, k).
 
 (* the values the body sees: up to and including the first one it breaks on *)
 Fixpoint upto_break (it : list V) : list V :=
